@@ -112,6 +112,10 @@ func (c *FenceConn) BeginTx(ctx context.Context, opts driver.TxOptions) (driver.
 	}
 
 	if !tm.IsSeataContext(ctx) {
+		// the business transaction was opened already: do not leak it
+		if rerr := tx.Rollback(); rerr != nil {
+			log.Error(rerr)
+		}
 		return nil, errors.New("there is not seata context")
 	}
 
@@ -120,24 +124,14 @@ func (c *FenceConn) BeginTx(ctx context.Context, opts driver.TxOptions) (driver.
 		return tx, nil
 	}
 
-	tm.SetFenceTxBeginedFlag(ctx, true)
-
 	fenceTx, err := c.TargetDB.BeginTx(ctx, &sql.TxOptions{})
 	if err != nil {
+		if rerr := tx.Rollback(); rerr != nil {
+			log.Error(rerr)
+		}
 		return nil, err
 	}
-	defer func() {
-		if err != nil {
-			if err := fenceTx.Rollback(); err != nil {
-				log.Error(err)
-			}
-
-			// although it have not any db operations yet, is still rollback to avoid leak tx.
-			if err := tx.Rollback(); err != nil {
-				log.Error(err)
-			}
-		}
-	}()
+	tm.SetFenceTxBeginedFlag(ctx, true)
 
 	// do fence operations
 	emptyCallback := func() error {
@@ -145,6 +139,14 @@ func (c *FenceConn) BeginTx(ctx context.Context, opts driver.TxOptions) (driver.
 	}
 
 	if err := WithFence(ctx, fenceTx, emptyCallback); err != nil {
+		// the fence refused (or failed): neither transaction may stay open
+		tm.SetFenceTxBeginedFlag(ctx, false)
+		if rerr := fenceTx.Rollback(); rerr != nil {
+			log.Error(rerr)
+		}
+		if rerr := tx.Rollback(); rerr != nil {
+			log.Error(rerr)
+		}
 		return nil, err
 	}
 
